@@ -22,6 +22,12 @@
 (* an execution leaves `program` unchanged (Immutable), and holds the result  *)
 (* of running alone (Equivalent) -- whichever interface started it, however   *)
 (* many executions came before, whatever they drew from the random generator. *)
+(* A "variant" is what is PRIVATE to an execution besides its interpreter: the *)
+(* functions in Config.Funcs when it starts, and -- for the sources that start *)
+(* commands (system, cmd | getline, print | cmd, close) -- its command string  *)
+(* (SharedProgram!CmdOf: the variable id of Config.Vars, different for every   *)
+(* goroutine): an execution must produce what a single execution with ITS      *)
+(* variant produces, whatever commands other interpreters start meanwhile.     *)
 EXTENDS Resolver, TraceBase
 
 VARIABLES l, program, solo
